@@ -329,7 +329,7 @@ def _register_to():
             order = [e[0] for e in log]
             ctx.prove("glue.line_offsets_shifted_before_blocks_are_built", z3.BoolVal(order.index("modify_line_offsets") < order.index("bytes_to_blocks") < order.index("pop_additional_line")))
             ctx.prove("glue.additional_line_popped_at_len(co_code)", z3.BoolVal([e for e in log if e[0] == "pop_additional_line"][0][1] == len(code.co_code)))
-        harness("glue.to_code_data.modular[consts=%s,free=%d]" % (consts_case, free_case), props=["C01", "C04", "C11"], functions=["code_data._code_data.to_code_data"], configs="all", cost=8,
+        harness("glue.to_code_data.modular[consts=%s,free=%d]" % (consts_case, free_case), props=["C01", "C04", "C11", "C05", "C02"], functions=["code_data._code_data.to_code_data"], configs="all", cost=8,
                 assumes=["callee contracts: to_flags_data, args_from_input, bytes_to_blocks, to_line_mapping (each discharged on the real callee by its own harness)",
                          "Args truthiness == it has parameters (Args.__len__ contract)"],
                 notes="symbolic flag set over all defined flags (each test forks once), symbolic counts: returns only if every flag was consumed into a field; "
